@@ -1,8 +1,7 @@
 (* C06 — executable model of the HTTP layer of pkg/util/vhost/http.go: HTTPReverseProxy.Register /
    UnRegister, serveRouted -> injectRequestInfoToCtx (route decided per request), the Rewrite
    closure (connection-pool key = synthetic URL host), http.Transport's idle-connection pool
-   (reuse before DialContext is consulted) and DialContext -> CreateConnection (route looked up
-   again at dial time).  Model only: no proofs here.
+   (reuse before DialContext is consulted) and DialContext (dial by the route config chosen when the request was routed).  Model only: no proofs here.
 
    A request is two steps so that connections can be in flight while routes change:
    HBegin (route, obtain a backend connection, reach the backend) and HEnd (response done, the
@@ -58,8 +57,8 @@ Inductive hp_op :=
    member leaving removes it (HTTPGroup.UnRegister: vhostRouter.Del, idle connections kept) *)
 | HGroupJoin (name d l u : bytes) (owner : Z)
 | HGroupLeave (d l u : bytes)
-(* a request whose routing decision (injectRequestInfoToCtx: pool key) is taken BEFORE, and whose dial
-   (DialContext -> CreateConnection: second route look-up) happens AFTER, the Register / UnRegister
+(* a request whose routing decision (injectRequestInfoToCtx: route config and pool key) is taken BEFORE,
+   and whose round trip (idle-pool look-up, DialContext) happens AFTER, the Register / UnRegister
    [between] of another goroutine; HBegin is the case with nothing in between *)
 | HBeginRaced (rid : Z) (cconn proto : Z) (host path user : bytes) (dialed : bool) (between : hp_op)
 (* an HTTP CONNECT request at the vhost HTTP port (serveRouted -> connectHandler): routed with the
@@ -89,17 +88,23 @@ Definition hp_key_of (st : hp_state) (host path user : bytes) : hp_key :=
   | None => KHost host
   end.
 
-(* Transport.RoundTrip with a decided key: reuse an idle connection of that key, or
-   DialContext -> CreateConnection (route looked up again, its CreateConnFn called).
+(* injectRequestInfoToCtx: the route config chosen when the request is routed (context value RouteConfigKey) *)
+Definition hp_routed (st : hp_state) (host path user : bytes) : option (route hp_rc) :=
+  rt_get_vhost (hp_routes st) (rt_canon_or_empty host) path user.
+
+(* Transport.RoundTrip with the decided key and route config: reuse an idle connection of that key, or
+   DialContext, which creates the connection with the CreateConnFn of the ROUTED config (no second
+   look-up); a request that had no route config is not dialled (ErrNoRouteFound -> ErrorHandler -> 404).
+   [st] is the state at the time of the round trip.
    None = the observed Transport choice is not one the model allows *)
-Definition hp_roundtrip (st : hp_state) (key : hp_key) (rid : Z) (host path user : bytes) (dialed : bool)
+Definition hp_roundtrip (st : hp_state) (routed : option (route hp_rc)) (key : hp_key) (rid : Z) (dialed : bool)
   : option (hp_state * hp_out) :=
   if dialed then
-    match rt_get_vhost (hp_routes st) (rt_canon_or_empty host) path user with
+    match routed with
     | Some r =>
         let c := mkConn key (rc_owner (rt_pay r)) in
         Some (mkHp (hp_routes st) (hp_seq st) (hp_idle st) ((rid, c) :: hp_busy st), HReached (cn_backend c))
-    | None => Some (st, HNotFound)       (* ErrNoRouteFound -> ErrorHandler -> 404 *)
+    | None => Some (st, HNotFound)
     end
   else
     match hp_take key (hp_idle st) with
@@ -135,9 +140,9 @@ Definition hp_step (st : hp_state) (o : hp_op) : option (hp_state * hp_out) :=
       Some (mkHp (rt_del (hp_routes st) d l u) (hp_seq st) [] (hp_busy st), HDone)
   | HBegin rid _ _ host path user dialed =>
       (* injectRequestInfoToCtx: rc := GetRouteConfig(CanonicalHost(req.Host), req.URL.Path, user) *)
-      hp_roundtrip st (hp_key_of st host path user) rid host path user dialed
+      hp_roundtrip st (hp_routed st host path user) (hp_key_of st host path user) rid dialed
   | HBeginRaced rid _ _ host path user dialed between =>
-      hp_roundtrip (hp_reg_step st between) (hp_key_of st host path user) rid host path user dialed
+      hp_roundtrip (hp_reg_step st between) (hp_routed st host path user) (hp_key_of st host path user) rid dialed
   | HEnd rid =>
       match hp_take_busy rid (hp_busy st) with
       | Some (c, busy') => Some (mkHp (hp_routes st) (hp_seq st) (c :: hp_idle st) busy', HDone)
